@@ -497,8 +497,12 @@ func writeEvidence(rd *runData, prop, tier string, seed int, sel, discharged, kn
 			assumedUsed[k] = true
 		}
 	}
-	var au, counters []string
+	var au, counters, conventions []string
 	for k := range assumedUsed {
+		if strings.HasPrefix(k, "convention ") {
+			conventions = append(conventions, strings.TrimPrefix(k, "convention "))
+			continue
+		}
 		if strings.HasPrefix(k, "arithmetic counter-step ") {
 			counters = append(counters, strings.TrimPrefix(k, "arithmetic counter-step "))
 			continue
@@ -542,6 +546,10 @@ func writeEvidence(rd *runData, prop, tier string, seed int, sel, discharged, kn
 		}
 		sort.Strings(ks)
 		assumptions = append(assumptions, "fields of shared structs without a declaration in the contract file get the class their accesses show (immutable if only a constructor stores them, else guarded by the struct's mutex): "+strings.Join(ks, ", "))
+	}
+	sort.Strings(conventions)
+	for _, c := range conventions {
+		assumptions = append(assumptions, "nil-dereference obligations (nopanic.nil_deref) assume: "+c)
 	}
 	if len(counters) > 0 {
 		assumptions = append(assumptions, "a step of one (x+1, x-1) on the value of a 64-bit integer field is treated as mathematical, 2^63 steps away from wrapping (fields declared `counter` are in addition checked to change by such steps only: counter.unit_step): "+strings.Join(counters, ", "))
